@@ -48,7 +48,7 @@ Print Assumptions C04_swapping_data_changes_no_recorded_number.
 (* the same for StrategyBase.update on a whole tree (any depth; the strategies' own records are not touched by swapN) *)
 Theorem C04_tree_update_reads_the_current_row_only :
   forall N (A : Type) (F : nat -> cols N) (ps : option nat -> tree N A -> result (tree N A)) date i (n : node N A),
-  PS N A F ps i -> agreeN N A F i n ->
+  PS N A F ps date i -> agreeN N A F i n ->
   node_update ps date i (swapN N A F n) = rmap (swapN N A F) (node_update ps date i n).
 Proof. exact node_update_swap. Qed.
 Print Assumptions C04_tree_update_reads_the_current_row_only.
@@ -57,7 +57,21 @@ Print Assumptions C04_tree_update_reads_the_current_row_only.
 Theorem C04_engine_no_lookahead_partial :
   forall N (A : Type) (F : nat -> cols N) (ps : option nat -> tree N A -> result (tree N A)) t
          (steps : list (option nat * nat)),
-  (forall j, j <= t -> PS N A F ps j /\ PSA N A F ps j) -> Forall (fun st => snd st <= t) steps ->
+  Forall (fun st => PS N A F ps (fst st) (snd st) /\ snd st <= t) steps -> (forall j, j <= t -> PSA N A F ps j) ->
   forall n, agree_upto N A F t n -> updates N A ps steps (swapN N A F n) = rmap (swapN N A F) (updates N A ps steps n).
 Proof. exact updates_swap. Qed.
 Print Assumptions C04_engine_no_lookahead_partial.
+
+(* trading reads the security's current fields and, for the refresh it may trigger, the current row: transact and
+   allocate (the whole-unit sizing search included) commute with the same replacement of the data columns *)
+Theorem C04_transact_reads_the_current_row_only : forall N pnow comm q upd us price (s : sec N) D,
+  agree N (row_of pnow) s D ->
+  sec_transact pnow comm q upd us price (swap N D s) = rmap (swapA N D) (sec_transact pnow comm q upd us price s).
+Proof. exact sec_transact_swap. Qed.
+Print Assumptions C04_transact_reads_the_current_row_only.
+
+Theorem C04_allocate_reads_the_current_row_only : forall N pnow comm amount upd (s : sec N) D,
+  agree N (row_of pnow) s D ->
+  sec_allocate pnow comm amount upd (swap N D s) = rmap (swapA N D) (sec_allocate pnow comm amount upd s).
+Proof. exact sec_allocate_swap. Qed.
+Print Assumptions C04_allocate_reads_the_current_row_only.
